@@ -174,26 +174,69 @@ enum SegEvent {
 }
 
 impl PeerSim {
-    pub fn new(cfg: PeerCfg, case_tag: u64) -> PeerSim {
-        let (a_me, a_peer): (IpAddress, IpAddress) = if cfg.v6 {
+    fn addrs(v6: bool) -> (IpAddress, IpAddress) {
+        if v6 {
             (
                 IpAddress::Ipv6(Ipv6Address::new(0xfd00, 0, 0, 0, 0, 0, 0, 1)),
                 IpAddress::Ipv6(Ipv6Address::new(0xfd00, 0, 0, 0, 0, 0, 0, 2)),
             )
         } else {
             (IpAddress::Ipv4(Ipv4Address::new(10, 0, 0, 1)), IpAddress::Ipv4(Ipv4Address::new(10, 0, 0, 2)))
-        };
+        }
+    }
+
+    pub fn new(cfg: PeerCfg, case_tag: u64) -> PeerSim {
+        let (a_me, _) = Self::addrs(cfg.v6);
         let plen = if cfg.v6 { 64 } else { 24 };
         let mut host = Host::new(Medium::Ip, cfg.mtu, HardwareAddress::Ip, cfg.seed, &[IpCidr::new(a_me, plen)], 0);
-        let mut s = tcp::Socket::new(tcp::SocketBuffer::new(vec![0u8; cfg.rx_buf]), tcp::SocketBuffer::new(vec![0u8; cfg.tx_buf]));
-        s.set_nagle_enabled(cfg.nagle);
-        s.set_ack_delay(cfg.ack_delay_ms.map(Duration::from_millis));
-        s.set_congestion_control(match cfg.cc {
-            0 => tcp::CongestionControl::None,
-            1 => tcp::CongestionControl::Reno,
-            _ => tcp::CongestionControl::Cubic,
-        });
+        let s = tcp::Socket::new(tcp::SocketBuffer::new(vec![0u8; cfg.rx_buf]), tcp::SocketBuffer::new(vec![0u8; cfg.tx_buf]));
         let h = host.sockets.add(s);
+        Self::on_host(host, h, 0, cfg, case_tag)
+    }
+
+    /// Socket reuse: the same socket (and interface) serves another connection with another peer
+    /// configuration.  A socket that is not CLOSED is aborted first, except that TIME-WAIT is
+    /// sometimes left to expire by itself.  Returns None when the socket cannot be opened again.
+    pub fn reuse(mut self, mut cfg: PeerCfg, case_tag: u64, let_time_wait_expire: bool) -> Option<PeerSim> {
+        if self.state() == State::TimeWait && let_time_wait_expire {
+            for _ in 0..30 {
+                self.now += 500_000;
+                let _ = self.host.poll(self.now);
+                if self.state() == State::Closed {
+                    break;
+                }
+            }
+        }
+        if self.state() != State::Closed {
+            self.sock().abort();
+            let _ = self.host.poll(self.now);
+        }
+        if self.state() != State::Closed {
+            return None;
+        }
+        self.host.dev.rx.clear();
+        cfg.v6 = self.cfg.v6;
+        cfg.mtu = self.cfg.mtu;
+        cfg.rx_buf = self.cfg.rx_buf;
+        cfg.tx_buf = self.cfg.tx_buf;
+        cfg.seed = self.cfg.seed;
+        let now = self.now + 1_000;
+        let PeerSim { host, h, .. } = self;
+        Some(Self::on_host(host, h, now, cfg, case_tag))
+    }
+
+    fn on_host(mut host: Host, h: SocketHandle, now: Micros, cfg: PeerCfg, case_tag: u64) -> PeerSim {
+        let (a_me, a_peer) = Self::addrs(cfg.v6);
+        {
+            let s = host.sockets.get_mut::<tcp::Socket>(h);
+            s.set_nagle_enabled(cfg.nagle);
+            s.set_ack_delay(cfg.ack_delay_ms.map(Duration::from_millis));
+            s.set_congestion_control(match cfg.cc {
+                0 => tcp::CongestionControl::None,
+                1 => tcp::CongestionControl::Reno,
+                _ => tcp::CongestionControl::Cubic,
+            });
+        }
         let me = Addr::from_smol(a_me);
         let peer = Addr::from_smol(a_peer);
         let tag_sock = case_tag ^ 0xaaaa;
@@ -201,7 +244,7 @@ impl PeerSim {
         let mut sim = PeerSim {
             host,
             h,
-            now: 0,
+            now,
             me,
             peer,
             tag_peer: case_tag ^ 0x5555,
@@ -223,7 +266,7 @@ impl PeerSim {
             from_listen: false,
             closed_in_syn_received: false,
             tw_entered: None,
-            tw_last_touch: 0,
+            tw_last_touch: now,
             peer_acked_max: 0,
             smon,
             stats: PeerStats::default(),
